@@ -235,11 +235,13 @@ type verifProv struct {
 	imgRound  int    // round it was produced in (-1: none)
 }
 
-// verifWrites lets a symbolic number of writes reach the database.
+// verifWrites lets a symbolic number of writes (possibly none) reach the database: the index
+// moves to any value that is not smaller. (A fresh value constrained by >= instead of
+// "old + delta" keeps every obligation free of 64-bit adders.)
 func (p *verifProv) verifWrites(name string) {
-	d := verifU64(verifName(name, p.round))
-	verifAssume(d < 1<<32)
-	p.idx += d
+	n := verifU64(verifName(name, p.round))
+	verifAssume(n >= p.idx)
+	p.idx = n
 }
 
 func (p *verifProv) LastIndex() (uint64, error) {
@@ -381,7 +383,6 @@ func verifNewSystem(interval time.Duration) *verifOracle {
 	verifFiles = nil
 	p := &verifProv{imgRound: -1, lastRound: -1}
 	p.idx = verifU64("startIndex")
-	verifAssume(p.idx < 1<<40)
 	c := &verifClient{p: p}
 	// NewUploader without its os.Stderr logger
 	u := &Uploader{storageClient: c, dataProvider: p, interval: interval, logger: log.New(io.Discard, "", 0)}
